@@ -89,6 +89,11 @@ class Ready:
             c = self.tr.call_of(node)
             if c.def_ == TRY_BRANCH or c.def_ in PASS_THROUGH_CALLS:
                 return self.derives(self.tr.expand(self.tr.operand(c.g.b, c.args[0], c.loc)), V, depth + 1)
+        if k == "agg":
+            # re-wrapped success payload: Ok(x) / Ready(x) / Some(x) built from the derived value (helper returns)
+            b2, rv = self.tr.agg_of(node)
+            if rv.get("variant") in ("Ready", "Ok", "Continue", "Some") and len(rv["ops"]) == 1:
+                return self.derives(self.tr.expand(self.tr.operand(b2, rv["ops"][0], (node[3], node[4]))), V, depth + 1)
         return False
 
     def success_edges(self, body, V):
